@@ -1796,7 +1796,6 @@ def _stateprep_workflow(
     scan = ScanningGateRemovalPass(
         success_threshold=synthesis_epsilon,
         instantiate_options=inst_ops,
-        cost=HilbertSchmidtCostGenerator(),
     )
 
     workflow: list[BasePass] = [] if seed is None else [SetRandomSeedPass(seed)]
